@@ -83,6 +83,38 @@ func floodPlan(r *core.Rand, prop string) *Plan {
 	return p
 }
 
+// throngPlan: 66-90 callers at once, one detection each, of inputs that registered
+// extensions accept, under the "hold" policy (everybody who enters a user-supplied
+// detector stays there while anybody else can still run): whatever counts or
+// bounds concurrent activations (a recursion guard shared between goroutines, a
+// fixed number of slots) is driven past its bound.
+func throngPlan(r *core.Rand) *Plan {
+	p := &Plan{Prop: "C06", Limit0: []uint32{3072, 0, 64}[r.Intn(3)], MaxSteps: 4000000, Pool: "steal",
+		Sched: core.SchedSpec{Kind: "hold"}, Slots: 4}
+	universe := pickUniverse(r, 3)
+	g := &extGen{r: r, universe: universe, limits: []uint32{p.Limit0}}
+	var accepted []inputs.Input
+	for i, n := 0, r.Range(1, 3); i < n; i++ {
+		in := universe[r.Intn(len(universe))]
+		path := pathOf(in.Fam)
+		e := g.accepting(path[r.Intn(len(path))], lib.Header(in.Bytes(), p.Limit0))
+		p.Pre = append(p.Pre, Op{Kind: "extend", Ext: e})
+		accepted = append(accepted, in)
+	}
+	for t, n := 0, r.Range(66, 90); t < n; t++ {
+		in := accepted[r.Intn(len(accepted))]
+		if r.Chance(1, 6) {
+			in = universe[r.Intn(len(universe))]
+		}
+		op := Op{Kind: "detect", In: &in}
+		if r.Chance(1, 5) {
+			op = Op{Kind: "reader", In: &in, Del: randDelivery(r, len(in.Bytes()), 0)}
+		}
+		p.Tasks = append(p.Tasks, []Op{op})
+	}
+	return p
+}
+
 func (c *c06) Plan(seed uint64, tier string, worker, workers, idx int) *Plan {
 	if idx < 1000000 {
 		// the race phase starts with the systematic part: two callers detecting every
@@ -95,6 +127,9 @@ func (c *c06) Plan(seed uint64, tier string, worker, workers, idx int) *Plan {
 	r := core.NewRand(core.Mix(seed, 0xc06, uint64(worker), uint64(idx)))
 	if r.Chance(1, 50) {
 		return floodPlan(r, "C06")
+	}
+	if r.Chance(1, 120) {
+		return throngPlan(r)
 	}
 	if r.Chance(1, 8) {
 		// detections only, over the pool-dirtying / shape-sensitive inputs of the C04
@@ -130,7 +165,7 @@ func (c *c06) Plan(seed uint64, tier string, worker, workers, idx int) *Plan {
 		limits[r.Intn(nLimits)] = bigLimit(r)
 	}
 	p := &Plan{Prop: "C06", Limit0: limits[0], MaxSteps: 400000, Pool: []string{"adversarial", "steal", "lifo"}[r.Intn(3)]}
-	p.Sched = core.SchedSpec{Kind: []string{"random", "random", "pct", "pct", "rtc"}[r.Intn(5)], D: r.Range(1, 3), Preempt: 50 + r.Intn(400), Horizon: r.Range(60, 400)}
+	p.Sched = core.SchedSpec{Kind: []string{"random", "random", "pct", "pct", "rtc", "hold"}[r.Intn(6)], D: r.Range(1, 3), Preempt: 50 + r.Intn(400), Horizon: r.Range(60, 400)}
 	nextLimit := 1
 	universe := c06Universe(r, limits)
 	g := &extGen{r: r, universe: universe, limits: limits}
